@@ -51,6 +51,9 @@ type Row struct {
 	InPlace []int
 	// NoAlias: the doc comment forbids passing an input as output (reason). Such calls are not generated.
 	NoAlias string
+	// OperandArgs lists the inputs whose static type is an interface (rlwe.Operand / rlwe.ElementInterface): a
+	// ciphertext can be passed there under its other representations (its .El(), its .Plaintext() view).
+	OperandArgs []int
 	// OutMayBeLargerInput: the doc comment allows the output polynomial to have more rows than the result
 	// (so an input polynomial of the input's size may be passed as output).
 	OutMayBeLargerInput bool
@@ -198,6 +201,25 @@ type Pattern struct {
 	Name  string
 	OutIs int
 	Same  *[2]int
+	// Rep: the input that aliases the output is not passed as the output object itself but as another
+	// representation of the same memory: "el" = out.El() (the *rlwe.Element embedded in the ciphertext),
+	// "ptview" = out.Plaintext() (the library's degree-0 view on Value[0]), "header" = &c for c := *out
+	// (a second header on the same polynomials and metadata). "" = the output object itself.
+	Rep string
+}
+
+// ApplyRep returns the representation rep of ct (see Pattern.Rep).
+func ApplyRep(rep string, ct *rlwe.Ciphertext) interface{} {
+	switch rep {
+	case "el":
+		return ct.El()
+	case "ptview":
+		return ct.Plaintext()
+	case "header":
+		c := *ct
+		return &c
+	}
+	return ct
 }
 
 // fits: a polynomial value a can stand for b only if it has the same number of rows (a Q-basis
@@ -263,6 +285,13 @@ func Patterns(r *Row, in []interface{}, out interface{}, names []string) []Patte
 			if aliasable(a) && !contains(r.InPlace, i) && reflect.TypeOf(a) == reflect.TypeOf(out) && fits(a, out, r.OutMayBeLargerInput) {
 				ps = append(ps, Pattern{Name: "out==" + name(i), OutIs: i})
 				outIdx = append(outIdx, i)
+				if _, isCt := a.(*rlwe.Ciphertext); isCt {
+					if contains(r.OperandArgs, i) {
+						ps = append(ps, Pattern{Name: "out==" + name(i) + ".El()", OutIs: i, Rep: "el"},
+							Pattern{Name: "out==" + name(i) + ".Plaintext()", OutIs: i, Rep: "ptview"})
+					}
+					ps = append(ps, Pattern{Name: "out==&copy(*" + name(i) + ")", OutIs: i, Rep: "header"})
+				}
 			} else if PtrAlias(a, out) && !contains(r.InPlace, i) {
 				ps = append(ps, Pattern{Name: "out==&" + name(i), OutIs: i})
 				outIdx = append(outIdx, i)
